@@ -634,7 +634,7 @@ def stream_oracle(ck):
     ck.stream("oracle-commuting", "random COMMUTING operators (real coefficients in [-2,2], identity term allowed), real time in [-3,3] or per-term dictionary, "
               "orders 1, 2, 4, n_trotter_steps 1-4, control none/one/several (not containing qubit 0 when an identity term is present): "
               "||U*phase - ctrl(expm(-itH))||_2 <= 1e-9")
-    for _ in range(90 if quick else 2500):
+    for _ in range(90 if quick else 800):
         nq = rng.randint(1, 4)
         terms = rand_terms(rng, nq, commuting=True, real=True)
         if not terms:
@@ -660,7 +660,7 @@ def stream_oracle(ck):
     ck.stream("oracle-noncommuting", "random operators with non-commuting terms, |t| <= 1.5: deviation <= first-order bound n (t/n)^2/2 sum_{j<k} ||[H_j,H_k]|| (order 1) / "
               "second-order bound n (t/n)^3 (1/12 sum ||[R_j,[R_j,H_j]]|| + 1/24 sum ||[H_j,[H_j,R_j]]||), R_j = sum_{k>j} H_k (order 2): NUMERICAL support only; "
               "orders 4, 6: the deviation with 4 steps is below the deviation with 1 step")
-    for _ in range(90 if quick else 2500):
+    for _ in range(90 if quick else 800):
         nq = rng.randint(2, 4)
         terms = [t for t in rand_terms(rng, nq, real=True, allow_identity=False)]
         if len(terms) < 2 or all(commute_words(a, b) for (a, _), (b, _) in itertools.combinations(terms, 2)):
@@ -698,7 +698,7 @@ def stream_fermion(ck, pre):
               "time, n_trotter_steps 1-3, order 1/2, encodings jw, bk, scbk, jkmn: trotterize(FermionOperator) gate strings/phase vs model fed with the mapped scaled operator; "
               "||U*phase - expm(-i H_mapped)|| within the commutator bound (exact when the mapped terms commute)")
     exprs, impl = [], []
-    for _ in range(40 if quick else 600):
+    for _ in range(40 if quick else 400):
         nso = 4
         fop = FermionOperator()
         tdict = {}
